@@ -120,6 +120,8 @@ def run_check(tier, seed):
                       'copy-up is judged on type, permission bits (07777 for files, 01777 for directories), content and link target; ownership, times and xattrs are outside this property']
     findings = []; broken = []
     std_audit(ev, PROP, broken)
+    ok_ev, out_ev = coq_make(['Model/OverlayEval.vo'])      # the case evaluators live outside the proofs' cone (Uint63 hashes)
+    if not ok_ev: broken.append({'kind': 'correspondence', 'name': 'coq/Model/OverlayEval.v does not build', 'log': out_ev[-1500:]})
     ok, out, bindir = cargo_build(['overlay'])
     stats = {'evals': 0, 'shapes': set(), 'restarts': 0, 'tie_cases': 0, 'copyups_bad': 0}
     if not ok:
